@@ -19,7 +19,8 @@ ALPHABET = ["ok-keep", "ok-close", "refuse", "close-before-reply", "reset", "404
 
 
 class Peer(object):
-    def __init__(self):
+    def __init__(self, unix_path=None):
+        self.unix_path = unix_path
         self.port = None
         self.script = []
         self.applied = []            # (value carried by the request, letter applied to it), in the order requests arrived
@@ -32,12 +33,19 @@ class Peer(object):
         self.thread.start()
 
     def listen(self):
-        s = socket.socket(socket.AF_INET, socket.SOCK_STREAM)
-        s.setsockopt(socket.SOL_SOCKET, socket.SO_REUSEADDR, 1)
-        s.bind(("127.0.0.1", self.port or 0))
+        if self.unix_path:
+            import os
+            if os.path.exists(self.unix_path):
+                os.unlink(self.unix_path)
+            s = socket.socket(socket.AF_UNIX, socket.SOCK_STREAM)
+            s.bind(self.unix_path)
+        else:
+            s = socket.socket(socket.AF_INET, socket.SOCK_STREAM)
+            s.setsockopt(socket.SOL_SOCKET, socket.SO_REUSEADDR, 1)
+            s.bind(("127.0.0.1", self.port or 0))
+            self.port = s.getsockname()[1]
         s.listen(8)
         s.settimeout(0.05)
-        self.port = s.getsockname()[1]
         self.lsock = s
 
     def unlisten(self):
@@ -45,6 +53,12 @@ class Peer(object):
             if self.lsock is not None:
                 self.lsock.close()
                 self.lsock = None
+                if self.unix_path:
+                    import os
+                    try:
+                        os.unlink(self.unix_path)
+                    except OSError:
+                        pass
 
     def relisten(self):
         with self.lock:
@@ -135,7 +149,10 @@ class Peer(object):
             elif letter == "close-before-reply":
                 return
             elif letter == "reset":
-                conn.setsockopt(socket.SOL_SOCKET, socket.SO_LINGER, struct.pack("ii", 1, 0))
+                try:
+                    conn.setsockopt(socket.SOL_SOCKET, socket.SO_LINGER, struct.pack("ii", 1, 0))
+                except OSError:
+                    pass            # no linger option on a Unix socket: an abrupt close
                 return
             elif letter == "404-with-length":
                 send(b"404 Not Found", b"nope")
@@ -174,92 +191,102 @@ def run(tier="quick", seed=0):
     rng = random.Random(seed)
     old_timeout = socket.getdefaulttimeout()
     socket.setdefaulttimeout(1.0)
-    peer = Peer()
+    import os
+    import shutil
+    import tempfile
+    sockdir = tempfile.mkdtemp(prefix="verif_c19_")
+    families = ["tcp"] + (["unix"] if hasattr(socket, "AF_UNIX") else [])
     failures, n = [], 0
-    seqs = [(a,) for a in ALPHABET] + list(itertools.product(ALPHABET, repeat=2))
-    more = list(itertools.product(ALPHABET, repeat=3))
-    rng.shuffle(more)
-    seqs += more[: (60 if tier == "quick" else 1728)]
     counter = [0]
-    url = "http://127.0.0.1:%d/rpc" % peer.port
-    try:
-        for seq in seqs:
-            n += 1
-            proxy = jsonrpclib.ServerProxy(url)
-            with peer.lock:
-                peer.script = list(seq)
-                peer.applied = []
-            failed_after_faults = 0
-            healthy_done = 0
-            problems = []
-            calls = 0
-            while healthy_done < 3 and calls < 12:
-                calls += 1
-                counter[0] += 1
-                value = "v%d" % counter[0]
+    for family in families:
+        socket.setdefaulttimeout(1.0)
+        peer = Peer(os.path.join(sockdir, "peer.sock") if family == "unix" else None)
+        url = ("unix+http://./%s" % peer.unix_path) if family == "unix" else "http://127.0.0.1:%d/rpc" % peer.port
+        host_mark = "./" if family == "unix" else "127.0.0.1"      # unix+http://./<socket path>: the host is ".", the target "/"
+        seqs = [(a,) for a in ALPHABET] + list(itertools.product(ALPHABET, repeat=2))
+        more = list(itertools.product(ALPHABET, repeat=3))
+        rng.shuffle(more)
+        if family == "tcp" or tier != "quick":
+            seqs += more[: (60 if tier == "quick" else 1728)]
+        try:
+            for seq in seqs:
+                n += 1
+                proxy = jsonrpclib.ServerProxy(url)
                 with peer.lock:
-                    refuse = bool(peer.script) and peer.script[0] == "refuse"
+                    peer.script = list(seq)
+                    peer.applied = []
+                failed_after_faults = 0
+                healthy_done = 0
+                problems = []
+                calls = 0
+                while healthy_done < 3 and calls < 12:
+                    calls += 1
+                    counter[0] += 1
+                    value = "v%d" % counter[0]
+                    with peer.lock:
+                        refuse = bool(peer.script) and peer.script[0] == "refuse"
+                        if refuse:
+                            peer.script.pop(0)
+                        faults_over = not peer.script
                     if refuse:
-                        peer.script.pop(0)
-                    faults_over = not peer.script
-                if refuse:
-                    peer.unlisten()
+                        peer.unlisten()
+                        try:
+                            proxy("close")()      # a refused connection is a new connection attempt
+                        except Exception:      # noqa
+                            pass
                     try:
-                        proxy("close")()      # a refused connection is a new connection attempt
-                    except Exception:      # noqa
-                        pass
+                        got = proxy.echo(value)
+                        outcome = ("value", got)
+                    except TransportError as e:
+                        outcome = ("transport-error", e)
+                    except socket.timeout as e:
+                        outcome = ("blocked", e)
+                    except Exception as e:      # noqa
+                        outcome = ("raised", e)
+                    finally:
+                        if refuse:
+                            peer.relisten()
+                    with peer.lock:
+                        mine = [l for v, l in peer.applied if v == value]
+                    last = "refuse" if refuse and not mine else (mine[-1] if mine else "nothing reached the peer")
+                    label = "call %d (%s)" % (calls, "; ".join((["refuse"] if refuse else []) + mine) or last)
+                    if outcome[0] == "blocked":
+                        problems.append("%s neither returned nor failed within the time-out" % label)
+                    if outcome[0] == "value" and outcome[1] != value:
+                        problems.append("%s returned %r, the result of another request (own value %r)" % (label, outcome[1], value))
+                    if outcome[0] == "value" and last not in ("ok-keep", "ok-close"):
+                        problems.append("%s returned a value although its request was not answered healthily" % label)
+                    # a reply the client got to read: TransportError with the URL and that status.  (A reply sent to a request
+                    # whose predecessor left an unread response behind is never read: the call fails earlier, which is allowed -
+                    # "returns its own result or raises".)
+                    if outcome[0] == "transport-error":
+                        e = outcome[1]
+                        statuses = [int(l[:3]) for l in mine if l[:3].isdigit()]
+                        if getattr(e, "errcode", None) not in statuses or host_mark not in str(getattr(e, "url", "")):
+                            problems.append("%s: TransportError carries url %r and status %r" % (label, getattr(e, "url", None), getattr(e, "errcode", None)))
+                    elif last[:3].isdigit() and outcome[0] == "value":
+                        problems.append("%s returned although the reply was not a 200" % label)
+                    elif last[:3].isdigit() and len(mine) == 1 and calls == 1:
+                        problems.append("%s: a non-200 reply on a fresh connection must raise TransportError, got %s" % (label, outcome[0]))
+                    if faults_over and not refuse:
+                        if outcome[0] == "value":
+                            healthy_done += 1
+                        elif not mine or all(l in ("ok-keep", "ok-close") for l in mine):
+                            failed_after_faults += 1
+                if failed_after_faults > 1:
+                    problems.append("%d calls failed after the faults had stopped" % failed_after_faults)
                 try:
-                    got = proxy.echo(value)
-                    outcome = ("value", got)
-                except TransportError as e:
-                    outcome = ("transport-error", e)
-                except socket.timeout as e:
-                    outcome = ("blocked", e)
-                except Exception as e:      # noqa
-                    outcome = ("raised", e)
-                finally:
-                    if refuse:
-                        peer.relisten()
-                with peer.lock:
-                    mine = [l for v, l in peer.applied if v == value]
-                last = "refuse" if refuse and not mine else (mine[-1] if mine else "nothing reached the peer")
-                label = "call %d (%s)" % (calls, "; ".join((["refuse"] if refuse else []) + mine) or last)
-                if outcome[0] == "blocked":
-                    problems.append("%s neither returned nor failed within the time-out" % label)
-                if outcome[0] == "value" and outcome[1] != value:
-                    problems.append("%s returned %r, the result of another request (own value %r)" % (label, outcome[1], value))
-                if outcome[0] == "value" and last not in ("ok-keep", "ok-close"):
-                    problems.append("%s returned a value although its request was not answered healthily" % label)
-                # a reply the client got to read: TransportError with the URL and that status.  (A reply sent to a request
-                # whose predecessor left an unread response behind is never read: the call fails earlier, which is allowed -
-                # "returns its own result or raises".)
-                if outcome[0] == "transport-error":
-                    e = outcome[1]
-                    statuses = [int(l[:3]) for l in mine if l[:3].isdigit()]
-                    if getattr(e, "errcode", None) not in statuses or "127.0.0.1" not in str(getattr(e, "url", "")):
-                        problems.append("%s: TransportError carries url %r and status %r" % (label, getattr(e, "url", None), getattr(e, "errcode", None)))
-                elif last[:3].isdigit() and outcome[0] == "value":
-                    problems.append("%s returned although the reply was not a 200" % label)
-                elif last[:3].isdigit() and len(mine) == 1 and calls == 1:
-                    problems.append("%s: a non-200 reply on a fresh connection must raise TransportError, got %s" % (label, outcome[0]))
-                if faults_over and not refuse:
-                    if outcome[0] == "value":
-                        healthy_done += 1
-                    elif not mine or all(l in ("ok-keep", "ok-close") for l in mine):
-                        failed_after_faults += 1
-            if failed_after_faults > 1:
-                problems.append("%d calls failed after the faults had stopped" % failed_after_faults)
-            try:
-                proxy("close")()
-            except Exception:      # noqa
-                pass
-            for p in problems[:2]:
-                failures.append({"name": "jsonrpclib.jsonrpc.ServerProxy/bounded[faults_are_contained]", "input": {"faults": list(seq)}, "observed": p})
-    finally:
-        peer.stop = True
-        peer.unlisten()
-        socket.setdefaulttimeout(old_timeout)
-    return {"kind": "fault sequences on one real ServerProxy against a scripted raw-socket peer over loopback TCP (bounded)",
+                    proxy("close")()
+                except Exception:      # noqa
+                    pass
+                for p in problems[:2]:
+                    failures.append({"name": "jsonrpclib.jsonrpc.ServerProxy/bounded[faults_are_contained]", "input": {"faults": list(seq), "transport": family}, "observed": p})
+        finally:
+            peer.stop = True
+            peer.unlisten()
+            socket.setdefaulttimeout(old_timeout)
+    shutil.rmtree(sockdir, ignore_errors=True)
+    return {"kind": "fault sequences on one real ServerProxy against a scripted raw-socket peer over loopback TCP and over a Unix socket (bounded)",
             "bound": "all sequences of 1 and 2 faults and %d sampled sequences of 3 over %d letters, each followed by three healthy "
                      "exchanges; 1 s socket time-out as watchdog (the peer holds an undelimited reply open for 1.6 s)" % (60 if tier == "quick" else 1728, len(ALPHABET)),
             "evaluations": n, "failures": failures[:40], "failures_total": len(failures)}
